@@ -14,6 +14,7 @@ import (
 
 	pb "github.com/buchgr/bazel-remote/v2/genproto/build/bazel/remote/execution/v2"
 
+	"google.golang.org/grpc/codes"
 	"google.golang.org/protobuf/proto"
 
 	"verif/harness/lib"
@@ -326,6 +327,12 @@ func (s *session) attempt(n int) (retry bool) {
 		}
 		s.postCheck(ph.name)
 	}
+	if s.cfg.Auth == "htpasswd" && !s.dead && !child.Exited() {
+		s.reusedConnection()
+	}
+	if s.dead {
+		child.WaitExit(3 * time.Second) // let the supervisor see the exit
+	}
 	if child.Exited() {
 		if p, what := child.Panicked(); p {
 			// Not an authentication verdict (C14's domain); the matrix is incomplete.
@@ -338,6 +345,35 @@ func (s *session) attempt(n int) (retry bool) {
 	}
 	s.count("cfg." + s.cfg.String())
 	return false
+}
+
+// reusedConnection: a valid login and then a wrong password for the same user
+// on the very same HTTP keep-alive connection / gRPC channel.
+func (s *session) reusedConnection() {
+	u := s.mat.users
+	valid := credState{Name: "valid", Valid: true, User: "alice", Header: basicHeader("alice", u["alice"])}
+	c, err := newClient(s.cfg, s.mat, s.child.HTTPAddr, s.child.GRPCAddr, valid)
+	if err != nil {
+		s.inconclusive("client: " + err.Error())
+		return
+	}
+	defer c.close()
+	phase := "after-valid-login"
+	warm := c.do("GET", "/cas/"+s.casPresent.Hash, nil)
+	ctx, cancel := callCtx(c.ctx(context.Background()))
+	o := invokeEmpty(ctx, c.conn, rpcMethod{Full: mGetCapabilities, Name: "GetCapabilities"})
+	cancel()
+	s.note("reused connection warm-up with valid credentials: HTTP %d %v, gRPC %s", warm.Status, warm.Err, o)
+	if warm.Status != 200 || o.Code != codes.OK {
+		s.inconclusive(fmt.Sprintf("reused-connection warm-up with valid credentials failed on %s: HTTP %d %v, gRPC %s", s.cfg, warm.Status, warm.Err, o))
+		return
+	}
+	bad := []byte(u["alice"])
+	bad[0] ^= 1
+	c.cred = credState{Name: "wrong-password-reused-connection", User: "alice", Header: basicHeader("alice", string(bad))}
+	s.probeHTTP(phase, c)
+	s.probeGRPC(context.Background(), phase, c)
+	s.postCheck(phase + "-reused-connection")
 }
 
 // prepare stores the entries that read probes and destructive-method probes aim at.
